@@ -486,6 +486,12 @@ class Kernel:
                 if isinstance(b, Loc) and b.key[0] == "L" and b.key[-1] == name:
                     return I.ctx.load(b)
             f = f.parent
+        # an invariant is ghost code: when its loop was moved into a helper executed in place it may still mention a local of
+        # the function that called the helper -- look through the dynamic call stack as well
+        for fr in reversed(I.ctx.frames):
+            for did, b in reversed(list(fr.vars.items())):
+                if isinstance(b, Loc) and b.key[0] == "L" and b.key[-1] == name:
+                    return I.ctx.load(b)
         raise Gap("invariant refers to unknown local %s" % name)
 
     def local_obj(self, I, name):
